@@ -96,7 +96,13 @@ def run_case(ctx, case):
     if not default or rng.random() < 0.5:
         kwargs = {"remove_completed_machine_nodes": case["rm_machines"],
                   "remove_completed_job_nodes": case["rm_jobs"]}
-    upd = ResidualGraphUpdater(d, g0, **kwargs)
+    if case["seed"] % 6 == 0:
+        # documented alternative: build unsubscribed, attach by hand
+        upd = ResidualGraphUpdater(d, g0, subscribe=False, **kwargs)
+        d.subscribe(upd)
+        ctx.count("updater_subscribed_by_hand")
+    else:
+        upd = ResidualGraphUpdater(d, g0, **kwargs)
     if case["initial_reset"]:
         d.reset()
     ctx.count("builder_" + case["builder"])
